@@ -54,6 +54,8 @@ func (c cfg) xs() ring.DistributionParameters {
 		return ring.DiscreteGaussian{Sigma: 3.2, Bound: 19.2}
 	case "gauss3.2b5":
 		return ring.DiscreteGaussian{Sigma: 3.2, Bound: 5} // tail cut well inside 6 sigma
+	case "default": // the literal leaves Xs empty
+		return nil
 	}
 	return ring.Ternary{P: 0.5}
 }
@@ -74,6 +76,8 @@ func (c cfg) xe() ring.DistributionParameters {
 		return ring.Ternary{P: 0.5}
 	case "ternary-hN/4": // fixed-Hamming-weight ternary error (the sparse sampling path, read-and-add included)
 		return ring.Ternary{H: max(1, (1<<c.LogN)/4)}
+	case "default": // the literal leaves Xe empty
+		return nil
 	}
 	return ring.DiscreteGaussian{Sigma: 3.2, Bound: 19.2}
 }
@@ -128,18 +132,99 @@ func cases(tier string, seed int64) []eng.Case {
 			out = append(out, eng.Case{ID: id, Sig: "C03|keys", Desc: cc, Run: func(x *eng.Ctx) { runKeys(x, cc) }})
 		}
 	}
+	return append(out, extCases(tier, seed, n)...)
+}
+
+// extCases: the families added by the coverage audit (own random stream, so that the ids above stay what they were).
+func extCases(tier string, seed int64, base int) []eng.Case {
+	r := eng.NewRand("c03-cases-ext", seed)
+	var out []eng.Case
+	n := 150
+	if tier == "thorough" {
+		n = 2400
+	}
+	for i := 0; i < n; i++ {
+		c := cfg{Ring: eng.Pick(r, "std", "std", "ci"), Xs: eng.Pick(r, xsKinds...), Xe: eng.Pick(r, xeKinds...)}
+		c.Kind = eng.Pick(r, "api", "api", "qp", "keys2", "keys2", "seq", "enc", "keys")
+		c.LogN = eng.Pick(r, 4, 5, 6, 8)
+		if i%4 == 0 {
+			c.LogN = 9
+		}
+		nq := 1 + r.N(4)
+		np := r.N(3)
+		qb := []int{30, 36, 45, 55, 60, 61}
+		if c.Kind == "enc" || c.Kind == "keys" {
+			// the old families on boundary literals: empty Xs/Xe, 61-bit Q primes, many RNS digits, smallest ring
+			switch r.N(4) {
+			case 0:
+				c.Xs, c.Xe = "default", "default"
+			case 1:
+				qb = []int{61, 61, 30}
+			case 2:
+				c.LogN = eng.Pick(r, 4, 5, 6)
+				nq, np = 5+r.N(4), 1+r.N(4)
+				if tier == "thorough" {
+					nq, np = 5+r.N(8), 1+r.N(5)
+				}
+			default:
+				c.LogN, nq, np = 4, 1, r.N(2)
+				c.Xs = eng.Pick(r, "default", "ternary-hN", "gauss3.2")
+			}
+		} else if r.N(6) == 0 {
+			c.Xs, c.Xe = eng.Pick(r, "default", c.Xs), "default"
+		}
+		for j := 0; j < nq; j++ {
+			c.QBits = append(c.QBits, eng.Pick(r, qb...))
+		}
+		for j := 0; j < np; j++ {
+			c.PBits = append(c.PBits, eng.Pick(r, 36, 45, 55, 60, 61))
+		}
+		nth := uint64(2) << c.LogN
+		if c.Ring == "ci" {
+			nth <<= 1
+		}
+		c.Q, c.P = gen.Chain(r, nth, c.QBits, c.PBits)
+		if c.Q == nil {
+			continue
+		}
+		cc := c
+		id := fmt.Sprintf("%s/x%d/%s/logN%d/q%v/p%v/%s/%s", c.Kind, base+i, c.Ring, c.LogN, c.QBits, c.PBits, c.Xs, c.Xe)
+		var run func(*eng.Ctx, cfg)
+		switch c.Kind {
+		case "enc":
+			run = runEnc
+		case "keys":
+			run = runKeys
+		case "api":
+			run = runAPI
+		case "qp":
+			run = runQP
+		case "keys2":
+			run = runKeys2
+		default:
+			run = runSeq
+		}
+		out = append(out, eng.Case{ID: id, Sig: "C03|" + c.Kind, Desc: cc, Run: func(x *eng.Ctx) {
+			if cc.Xs == "default" || cc.Xe == "default" {
+				x.Count("default_distribution_cases", 1)
+			}
+			run(x, cc)
+		}})
+	}
 	return out
 }
 
 func init() {
 	eng.Register(&eng.Monitor{
 		ID: "C03", Level: "exploration",
-		Rule:  "cases = accepted rlwe parameter literals (ring type x logN x Q/P prime sizes (1..4 Q, 0..2 P) x secret distribution x error distribution); inside an 'enc' case every level x key type (sk, pk) x encryptor variant (plain, ShallowCopy, WithKey, WithPRNG) x target degree (0 with keyed PRNG, 1, 2) x IsNTT x IsMontgomery is encrypted, decrypted and its exact centred error measured; 'keys' cases measure the error of every component of public, relinearisation, Galois and generic evaluation keys. distinct key = (family, ring type, logN, chain sizes, Xs, Xe, level, key type, variant, degree, flags); non-trivial = not the all-default combination (level max, sk, plain encryptor, degree 1, NTT, non-Montgomery).",
+		Rule:  "cases = accepted rlwe parameter literals (ring type x logN x Q/P prime sizes (1..4 Q, 0..2 P; boundary literals: 61-bit Q primes, 5..8 (thorough ..12) Q and up to 4 (5) P primes, smallest ring with one prime, empty Xs/Xe) x secret distribution x error distribution); inside an 'enc' case every level x key type (sk, pk) x encryptor variant (plain, ShallowCopy, WithKey, WithPRNG) x target degree (0 with keyed PRNG, 1, 2) x IsNTT x IsMontgomery is encrypted, decrypted and its exact centred error measured; 'keys' cases measure the error of every component of public, relinearisation, Galois and generic evaluation keys; 'api' cases call the remaining entry points (EncryptNew, EncryptZero, EncryptZeroNew, Encrypt(nil), NewTestEncryptorWithPRNG, Decrypt into a used receiver at the same/higher/lower level, Decryptor.ShallowCopy/WithKey, Horner decryption of degree 3..16, receivers above/below the plaintext level, random Scale/LogDimensions/IsBatched metadata, refusal paths); 'qp' cases encrypt zero into Element[ringqp.Poly] at (levelQ, levelP) pairs; 'keys2' cases judge secret keys against Xs, generators writing into used receivers, GenGaloisKeys(New), ring-degree-switch and ring-swap keys and the masks of all components; 'seq' cases drive one encryptor/decryptor/receiver through 24 random calls. distinct key = (family, ring type, logN, chain sizes, Xs, Xe, entry point, level(s), key type, variant, degree, flags); non-trivial = not the all-default combination (level max, sk, plain encryptor, degree 1, NTT, non-Montgomery).",
 		Cases: cases,
 		Assumptions: []string{
 			"ring arithmetic used to evaluate c0+c1*s is the one judged by C01",
 			"flags are interpreted semantically: message = IMForm^{IsMontgomery}(INTT^{IsNTT}(value))",
 			"upper noise bounds are worst-case bounds from the declared distributions; lower bounds are [sigma/2, 2*sigma] regions on >= 2^11 pooled coefficients",
+			"Element[ringqp.Poly] targets are judged with the same semantic reading of the flags; in-tree callers only use NTT+Montgomery there",
+			"keys between rings are judged against the library's own NTT-domain embedding of the smaller secret (MapSmallDimensionToLargerDimensionNTT / UnfoldConjugateInvariantToStandard)",
 		},
 	})
 }
@@ -265,6 +350,7 @@ func runEnc(c *eng.Ctx, cf cfg) {
 	}
 	rnd := c.Rand()
 	c.Sample(cf)
+	checkDeclared(c, cf, params)
 	kgen := rlwe.NewKeyGenerator(params)
 	sk := kgen.GenSecretKeyNew()
 	pk := kgen.GenPublicKeyNew(sk)
@@ -313,8 +399,8 @@ func runEnc(c *eng.Ctx, cf cfg) {
 	for _, keyType := range []string{"sk", "pk"} {
 		var key rlwe.EncryptionKey = sk
 		if keyType == "pk" {
-			if float64(n)*varS < 16 {
-				continue // the ephemeral secret of a very sparse Xs may legitimately repeat
+			if float64(n)*varS < 16 || collisionBits(params.Xs(), n) < 48 {
+				continue // the ephemeral secret of a very sparse (or toy-sized: n = H = 16 has 2^16 values) Xs may legitimately repeat
 			}
 			key = pk
 		}
@@ -523,7 +609,7 @@ func runEnc(c *eng.Ctx, cf cfg) {
 									}
 									// with a pk the only entropy may be the ephemeral u (errors vanish in the division by P):
 									// a weight-1 u has 2N values, so require a non-sparse distribution before demanding inequality
-									if keyType == "sk" || float64(n)*varS >= 16 {
+									if keyType == "sk" || (float64(n)*varS >= 16 && collisionBits(params.Xs(), n) >= 48) {
 										c.Check(!ct2.Equal(ct), sigBase+"|same-ciphertext-twice", nil)
 									}
 								}
@@ -563,6 +649,8 @@ func runEnc(c *eng.Ctx, cf cfg) {
 										return fmt.Sprintf("c%d of a public-key encryption divided by pk%d is a small polynomial (|.|inf=2^%.1f, Q=2^%d): this component carries no error term and reveals the ephemeral secret u (level=%d variant=%s)", comp, comp, w.MaxLog2, Qlvl.BitLen(), level, v2name(v.Coeffs))
 									})
 								}
+								// ... and its own one: with e0 = e1 the difference (c0 - m - c1)/(pk0 - pk1) is the small u
+								sameErrorInBothComponents(c, sigBase, rq, obs.Plain(rq, dct.Value[0], dct.IsNTT, dct.IsMontgomery), obs.Plain(rq, dct.Value[1], dct.IsNTT, dct.IsMontgomery), msg, pk, level)
 							}
 							// independent key: decryption must be far from the plaintext
 							// (a public-key encryption whose ephemeral secret u, drawn from Xs, is the zero polynomial is the
@@ -577,6 +665,10 @@ func runEnc(c *eng.Ctx, cf cfg) {
 								c.Check(d.Max.Cmp(eighth) >= 0, sigBase+"|readable-without-key", func() string {
 									return fmt.Sprintf("|Dec_sk'(ct)-pt|inf=2^%.1f < Q/8=2^%d", d.MaxLog2, eighth.BitLen())
 								})
+								// the same row by row (one unmasked RNS row shows pt mod q_i), and the mask itself
+								dr := rq.NewPoly()
+								rq.Sub(wm, msg, dr)
+								checkRowsMasked(c, sigBase, rq.ModuliChain()[:level+1], dr.Coeffs, dct.Value[1].Coeffs)
 							}
 						}
 					}
@@ -631,6 +723,7 @@ func runKeys(c *eng.Ctx, cf cfg) {
 	}
 	rnd := c.Rand()
 	c.Sample(cf)
+	checkDeclared(c, cf, params)
 	kgen := rlwe.NewKeyGenerator(params)
 	sk := kgen.GenSecretKeyNew()
 	n := params.N()
